@@ -194,6 +194,9 @@ func (p *Packet) unpackWithCompression(r io.Reader, threshold int) error {
 			return err
 		}
 		DataLength -= VarInt(n3)
+		if DataLength < 0 {
+			return fmt.Errorf("compressed packet error: size of %d is smaller than the packet id", DataLength+VarInt(n3))
+		}
 	} else {
 		n3, err := PacketID.ReadFrom(r)
 		if err != nil {
